@@ -609,7 +609,7 @@ impl<'a, T: Write + ?Sized> LinkFormatWrite<'a, T> {
             self.is_first = false;
         } else if self.error.is_none() {
             self.error = self.write.write_char(LINK_SEPARATOR_CHAR).err();
-            if self.add_newlines {
+            if self.add_newlines && self.error.is_none() {
                 self.error = self.write.write_str("\n\r").err();
             }
         }
